@@ -58,7 +58,11 @@ theorem fate_timed (hw : WF g) {pre : List Ev} (hok : TraceOk g pre) {y h : Nat}
     rw [hctx] at hc
     exact hc
   · obtain ⟨a, b, hs, hk⟩ := traceOk_mem hok hr
-    exact Or.inr ⟨a, _, b, hs, Or.inr (Or.inr ⟨h', hm, rfl⟩), Or.inr hk.2.2⟩
+    refine Or.inr ⟨a, _, b, hs, Or.inr (Or.inr ⟨h', hm, rfl⟩), ?_⟩
+    have := hk.2.2
+    unfold causeFor at this ⊢
+    rw [(handler_facts hw hy hm).2.1] at this
+    exact this
 
 /-- the untimed consequence (the clause as it was before): started, or a cause somewhere before -/
 theorem fate_cause (hw : WF g) {pre : List Ev} (hok : TraceOk g pre) {y h : Nat} (hy : y < g.tries.length)
@@ -102,7 +106,8 @@ theorem accepted_closed_when_owner_leaves (hw : WF g) {s : St} (hI : Inv g s) {y
 /-- the selected handler is submitted after `finally` has been accepted -/
 def ordOk (g : Graph) (pre : List Ev) : Ev → Prop
   | .hacc h => ∀ y f, (g.role h = .hfail y ∨ g.role h = .hsucc y) → (g.tryd y).fin = some f → Ev.hacc f ∈ pre
-  | .hrej h => ∀ y f, (g.role h = .hfail y ∨ g.role h = .hsucc y) → (g.tryd y).fin = some f → Ev.hacc f ∈ pre
+  | .hrej h => (∀ y f, (g.role h = .hfail y ∨ g.role h = .hsucc y) → (g.tryd y).fin = some f → Ev.hacc f ∈ pre) ∧
+      causeIn g 0 pre        -- in the model a submission is refused only because the ROOT scope is done
   | _ => True
 
 def TraceOrd (g : Graph) (tr : List Ev) : Prop :=
@@ -184,7 +189,8 @@ theorem oinv_submit {s : St} (hO : OInv g s) {y : Nat} {ho : Option Nat} {sel : 
     (hnext : ∀ v f, (next = .subFail v ∨ next = .subSucc v) → (g.tryd y).fin = some f →
       Ev.hacc f ∈ s.tr ∨ (ho = some f ∧ sel = true))
     (hord : ∀ h, ho = some h → ∀ y' f, (g.role h = .hfail y' ∨ g.role h = .hsucc y') → (g.tryd y').fin = some f →
-      Ev.hacc f ∈ s.tr) :
+      Ev.hacc f ∈ s.tr)
+    (hrejc : ∀ h, ho = some h → ¬ canCreate g s h = true → causeIn g 0 s.tr) :
     OInv g (submitHandler g s y ho sel next) := by
   have other : ∀ (s' : St) (q : TG), s'.tg = upd s.tg y q → (∀ e, e ∈ s.tr → e ∈ s'.tr) →
       ∀ z v f, z ≠ y → (s'.tg z = .subFail v ∨ s'.tg z = .subSucc v) → (g.tryd z).fin = some f → Ev.hacc f ∈ s'.tr := by
@@ -240,7 +246,16 @@ theorem oinv_submit {s : St} (hO : OInv g s) {y : Nat} {ho : Option Nat} {sel : 
         · subst hz
           simp [emit, upd_same] at hq
         · exact other _ .done rfl (fun e he => List.mem_append_left _ he) z v f hz hq hf
-      · exact traceOrd_snoc hO.ord (hord h rfl)
+      · exact traceOrd_snoc hO.ord ⟨hord h rfl, hrejc h rfl hcan⟩
+
+/-- a handler has an empty wait list, so its submission is refused only when the root scope is done -/
+theorem root_cause_of_refusal {s : St} (hI : Inv g s) {h : Nat} (hnw : g.waits h = [])
+    (hcan : ¬ canCreate g s h = true) : causeIn g 0 s.tr := by
+  have hroot : s.cerr 0 = true := by
+    unfold canCreate at hcan
+    rw [hnw, validWL_nil] at hcan
+    simpa using hcan
+  rcases hI.i2 0 hroot with h1 | h1 <;> exact h1
 
 theorem oinv_step {s s' : St} (hw : WF g) (hI : Inv g s) (hO : OInv g s) (l : Label)
     (hs : step g s l = some s') : OInv g s' := by
@@ -274,6 +289,9 @@ theorem oinv_step {s s' : St} (hw : WF g) (hI : Inv g s) (hO : OInv g s) (l : La
       · intro h hho y' f hr _
         obtain ⟨_, b⟩ := h3 h hho
         rw [b] at hr; rcases hr with hr | hr <;> cases hr
+      · intro h hho hcan
+        obtain ⟨a, b⟩ := h3 h hho
+        exact root_cause_of_refusal hI (hw.hfin a b).2.2.2.2 hcan
     · -- fail
       rename_i v htg
       have hy := hy (by rw [htg]; simp)
@@ -286,6 +304,9 @@ theorem oinv_step {s s' : St} (hw : WF g) (hI : Inv g s) (hO : OInv g s) (l : La
         rw [b] at hr
         rcases hr with hr | hr <;> cases hr
         exact hO.tg y v f (Or.inl htg) hf
+      · intro h hho hcan
+        obtain ⟨a, b⟩ := h2 h hho
+        exact root_cause_of_refusal hI (hw.hfail a b).2.2.2.2 hcan
     · -- success
       rename_i v htg
       have hy := hy (by rw [htg]; simp)
@@ -298,6 +319,9 @@ theorem oinv_step {s s' : St} (hw : WF g) (hI : Inv g s) (hO : OInv g s) (l : La
         rw [b] at hr
         rcases hr with hr | hr <;> cases hr
         exact hO.tg y v f (Or.inr htg) hf
+      · intro h hho hcan
+        obtain ⟨a, b⟩ := h1 h hho
+        exact root_cause_of_refusal hI (hw.hsucc a b).2.2.2.2 hcan
     · cases hs
 
 theorem oinv_init (g : Graph) : OInv g init := by
